@@ -560,6 +560,12 @@ func exec(op string) (res string) {
 			return "NOT-roundtrip"
 		}
 		return "roundtrip"
+	case "snapdec":
+		return execSnapdec(expand(w[1]))
+	case "snaprt":
+		return execSnapdec(expand(w[2]))
+	case "big", "bigx":
+		return execBig(w)
 	case "nego":
 		return nego(w[1], w[2])
 	case "rx", "negoh", "negos":
@@ -1333,6 +1339,34 @@ func main() {
 		op := fmt.Sprintf("nego %s %s", name, sup)
 		a := exec(op)
 		out.Case(op, a, "nego/"+strings.Fields(a)[0], true)
+	}
+	// 6b. snappy as a concrete codec: the real Decode against the block format's decoder in Lean, on
+	//     valid / mutated / hand-made element streams; the real Encode's output decoded by that decoder
+	for i := 0; i < 1500*mult; i++ {
+		op, cls := genSnapdec(r, lens)
+		if op == "" {
+			out.Dist[cls]++
+			continue
+		}
+		out.Case(op, exec(op), cls, true)
+	}
+	snapMax := 1<<15 + 1
+	if tier == "thorough" {
+		snapMax = 1<<18 + 1
+	}
+	for i := 0; i < 500*mult; i++ {
+		op, cls := genSnaprt(r, snapMax, lens, lateLs[:9])
+		out.Case(op, exec(op), cls, true)
+	}
+	// 6c. frames at the 256 MiB limit (the model answers through lengths only)
+	bigClasses := []string{"sender-too-big", "over"}
+	if tier == "thorough" {
+		bigClasses = []string{"sender-too-big", "sender-too-big", "at-limit-plain", "at-limit-compressible", "at-limit-compressible",
+			"near-limit-incompressible", "near-limit-incompressible", "over", "over", "over"}
+	}
+	for _, c := range bigClasses {
+		op, ans, cls := genBig(r, c)
+		out.Case(op, ans, cls, true)
 	}
 	// 7. the destination lz4 Encode hands to the block encoder (model vs code; last: a tie, not an input)
 	for _, n := range threshLens(maxPow) {
